@@ -399,3 +399,69 @@ Proof.
   rewrite (ssteps_mono _ _ _ E). intros H; exact H.
 Qed.
 End Mono.
+
+(* ---------- forward simulation between two instances of the S machine ---------- *)
+Section Sim.
+Variables ST1 ST2 ACT COND : Type.
+Variable mark1 : nat -> ST1 -> ST1.
+Variable mark2 : nat -> ST2 -> ST2.
+Variable exec1 : ACT -> ST1 -> res ST1.
+Variable exec2 : ACT -> ST2 -> res ST2.
+Variable ev1 : COND -> ST1 -> res bool.
+Variable ev2 : COND -> ST2 -> res bool.
+Variable Rel : ST1 -> ST2 -> Prop.
+Hypothesis Hmark : forall id p q, Rel p q -> Rel (mark1 id p) (mark2 id q).
+Hypothesis Hev : forall c p q b, Rel p q -> ev1 c p = Ok b -> ev2 c q = Ok b.
+Hypothesis Hexec : forall a p q p', Rel p q -> exec1 a p = Ok p' -> exists q', exec2 a q = Ok q' /\ Rel p' q'.
+
+Definition SRel (s : sst ST1) (t : sst ST2) : Prop := sstk ST1 s = sstk ST2 t /\ Rel (sp ST1 s) (sp ST2 t).
+
+Lemma sstep_sim l s t s' :
+  SRel s t -> sstep ST1 ACT COND mark1 exec1 ev1 s l = Ok s' ->
+  exists t', sstep ST2 ACT COND mark2 exec2 ev2 t l = Ok t' /\ SRel s' t'.
+Proof.
+  destruct l as [id k]. destruct s as [stk p], t as [stk2 q]. intros [Hs Hr]; cbn [sstk sp] in *. subst stk2.
+  destruct k as [a|c|c| |]; cbn [sstep sstk sp].
+  - destruct (live stk).
+    + destruct (exec1 a (mark1 id p)) as [p'|e] eqn:E; [|discriminate]. intros H; inversion H; subst.
+      destruct (Hexec a _ _ _ (Hmark id _ _ Hr) E) as (q' & -> & Hr'). eexists; split; [reflexivity|split; auto].
+    + intros H; inversion H; subst. eexists; split; [reflexivity|split; auto].
+  - destruct (live stk).
+    + destruct (ev1 c (mark1 id p)) as [b|e] eqn:E; [|discriminate]. intros H; inversion H; subst.
+      rewrite (Hev c _ _ _ (Hmark id _ _ Hr) E). eexists; split; [reflexivity|split; cbn; auto].
+    + intros H; inversion H; subst. eexists; split; [reflexivity|split; cbn; auto].
+  - destruct stk as [|f r]; [discriminate|]. destruct (outer f).
+    + destruct (taken f).
+      * intros H; inversion H; subst. eexists; split; [reflexivity|split; cbn; auto].
+      * destruct (ev1 c (mark1 id p)) as [b|e] eqn:E; [|discriminate]. intros H; inversion H; subst.
+        rewrite (Hev c _ _ _ (Hmark id _ _ Hr) E). eexists; split; [reflexivity|split; cbn; auto].
+    + intros H; inversion H; subst. eexists; split; [reflexivity|split; cbn; auto].
+  - destruct stk as [|f r]; [discriminate|]. destruct (outer f);
+      intros H; inversion H; subst; eexists; (split; [reflexivity|split; cbn; auto]).
+  - destruct stk as [|f r]; [discriminate|].
+    intros H; inversion H; subst. eexists; split; [reflexivity|split; cbn; auto].
+    destruct (outer f); auto.
+Qed.
+
+Lemma ssteps_sim ls : forall s t s',
+  SRel s t -> ssteps ST1 ACT COND mark1 exec1 ev1 s ls = Ok s' ->
+  exists t', ssteps ST2 ACT COND mark2 exec2 ev2 t ls = Ok t' /\ SRel s' t'.
+Proof.
+  induction ls as [|l ls IH]; intros s t s' HR H; cbn [ssteps] in *.
+  - inversion H; subst. eauto.
+  - destruct (sstep ST1 ACT COND mark1 exec1 ev1 s l) as [s1|e] eqn:E; [|discriminate].
+    destruct (sstep_sim l s t s1 HR E) as (t1 & -> & HR1). apply (IH s1 t1 s' HR1 H).
+Qed.
+
+Lemma run_S_sim ls p q p' :
+  Rel p q -> run_S ST1 ACT COND mark1 exec1 ev1 ls p = Ok p' ->
+  exists q', run_S ST2 ACT COND mark2 exec2 ev2 ls q = Ok q' /\ Rel p' q'.
+Proof.
+  unfold run_S. intros HR H.
+  destruct (ssteps ST1 ACT COND mark1 exec1 ev1 _ ls) as [s'|e] eqn:E; [|discriminate].
+  inversion H; subst.
+  assert (HS : SRel {| sstk := []; sp := p |} {| sstk := []; sp := q |}) by (split; [reflexivity|exact HR]).
+  destruct (ssteps_sim ls _ _ s' HS E) as (t' & -> & _ & HR').
+  eauto.
+Qed.
+End Sim.
